@@ -1,4 +1,11 @@
-"""Per-property metadata used by the runner (trusted base, assumptions, flags)."""
+"""Per-property metadata used by the runner and the MANIFEST generator.
+One JSON file per property in tools/meta/<id>.json with keys:
+  functional (bool)   a model/implementation disagreement is itself a violating input
+  native_axioms_ok    (optional) bv_decide axioms accepted for this property
+  level_text, level_note, technique (optional), trusted_base (list, appended to the common one), assumptions (list)
+A property without a meta file is not claimed (listed under MANIFEST.not_applicable with the reason below).
+"""
+import json, os, glob
 
 ALLOWED_AXIOMS = {"propext", "Classical.choice", "Quot.sound"}
 # bv_decide certificates are checked by compiled code; accepted only where native_axioms_ok
@@ -13,16 +20,18 @@ COMMON_TB = [
 
 HOOK_COMMITS = ["a973137"]
 
-# properties not (yet) claimed, with the reason shown in MANIFEST.not_applicable
-NOT_CLAIMED = {p: "check not built yet (construction in progress, see DESIGN.md §11 build order)" for p in
-               ["C%02d" % i for i in range(1, 21)] if p != "C11"}
+_here = os.path.dirname(os.path.abspath(__file__))
+PROPS = {}
+for _p in sorted(glob.glob(os.path.join(_here, "meta", "C*.json"))):
+    _m = json.load(open(_p))
+    _id = os.path.basename(_p)[:-5]
+    _tb = _m.get("trusted_base", [])
+    _m["trusted_base"] = COMMON_TB + [t for t in _tb if t not in COMMON_TB]
+    _m.setdefault("assumptions", [])
+    PROPS[_id] = _m
 
-PROPS = {
-    "C11": dict(
-        functional=True,
-        level_text="Lean theorems characterise the model of to_u64/to_i64/to_bool/to_f64 for all byte strings; the model is tied to src/scalar.rs by exhaustive small-alphabet and boundary/random differential runs, and an implementation-only oracle (u128 / correctly-rounded reference) turns any break into a concrete input",
-        level_note="theorems are about the hand-written model JominiModel/Model/Scalar.lean; IEEE-754 u64->f64 and division are modelled as exact RNE (hardware trusted); clauses whose theorem is not yet proved are decided by correspondence + oracle only (listed in evidence)",
-        trusted_base=COMMON_TB + ["IEEE-754 conformance of hardware u64->f64 conversion and f64 division (modelled as exact round-to-nearest-even)"],
-        assumptions=["model JominiModel/Model/Scalar.lean mirrors src/scalar.rs:168-338; measured table maxFractionDigits"],
-    ),
-}
+NOT_CLAIMED = {p: "check not built yet (construction in progress, see DESIGN.md §11 build order)"
+               for p in ["C%02d" % i for i in range(1, 21)] if p not in PROPS}
+_na = os.path.join(_here, "meta", "not_applicable.json")
+if os.path.exists(_na):
+    NOT_CLAIMED.update({k: v for k, v in json.load(open(_na)).items() if k not in PROPS})
